@@ -771,9 +771,22 @@ func (s *lease4) Finish(w *World) {
 				bound[m] = true
 			}
 		}
+		rawRecognised := true
 		for m := range rows {
+			if strings.HasPrefix(m, "?") {
+				rawRecognised = false
+			}
 			if m != mac {
 				if at, ok := s.firstSeen[m]; ok && at <= declinedAt {
+					bound[m] = true
+				}
+			}
+		}
+		if !rawRecognised {
+			// the table is not in the format the harness reads: which clients have a stored lease (without ever having
+			// been observed to be told one, e.g. across a crash) is unknown, so every client seen by then may hold one
+			for m, at := range s.firstSeen {
+				if m != mac && at <= declinedAt {
 					bound[m] = true
 				}
 			}
